@@ -337,6 +337,9 @@ theorem readType_mb (l : Nat) (hl : cm.depthLimit = some l) : ∀ (n : Nat) (p :
             | some e => exact (MB.of_eq (leave_md pi)).trans hpi
             | none =>
               simp only
+              by_cases hlm : (cm.listNeedsMember && ti.isNone) = true
+              · simp only [hlm, if_true]; exact (MB.of_eq (leave_md pi)).trans hpi
+              simp only [hlm, Bool.false_eq_true, if_false]
               have h2 := skipSp_md cm pi.leave
               rcases hr2 : skipSp cm pi.leave with ⟨r2, p2⟩
               rw [hr2] at h2
